@@ -882,6 +882,11 @@ Section DL.
       unfold dl_isempty. destruct W as (_ & F & _). rewrite F. destruct l; reflexivity.
     - (* erase(nilptr) *)
       reflexivity.
+    - (* destroy = clear *)
+      unfold dl_clear. pose proof (wf_len _ _ W) as LL. pose proof W as (ND & F & _). rewrite F.
+      destruct (dl_clear_loop_ok d l W (length l) 0 (S (length (larena d))) (larena d) ltac:(lia) ltac:(lia) ltac:(reflexivity)) as (a'' & ->).
+      cbn [rbind]. exists (mkdl T a'' None None), []. split; [reflexivity|]. split; [|reflexivity].
+      apply wf_intro; [constructor|reflexivity|reflexivity|]. intros k i H. rewrite nthe_nil in H. discriminate.
   Qed.
 
   Fixpoint dl_run (ops : list (lop T)) (d : dlist) : res (dlist * list (lret T)) :=
